@@ -1,6 +1,7 @@
 package constraint
 
 import (
+	"regexp"
 	"time"
 
 	jschema "verif/harness/ref"
@@ -34,10 +35,15 @@ func (DateTime) String() string {
 	return DateTimeConstraintType.String()
 }
 
+// rfc3339Shape the form of an RFC 3339 date-time. time.Parse alone is more
+// generous: it takes a one-digit hour, a comma in front of the fraction and an
+// offset of 24 hours.
+var rfc3339Shape = regexp.MustCompile(`^\d{4}-\d{2}-\d{2}T\d{2}:\d{2}:\d{2}(\.\d+)?(Z|[+-]([01]\d|2[0-3]):[0-5]\d)$`)
+
 func (DateTime) Validate(value bytes.Bytes) {
 	str := value.Unquote().String()
 	_, err := time.Parse(time.RFC3339, str)
-	if err != nil {
+	if err != nil || !rfc3339Shape.MatchString(str) {
 		panic(errors.ErrInvalidDateTime)
 	}
 }
